@@ -115,19 +115,25 @@ PROPS = {
         "families": [{"name": "hist"}],
         "tags": {"table": "direct", "invent": "direct", "reject-more": "direct", "err-kind": "direct", "cross-consume": "direct",
                  "dec-panic": "direct", "abs-diff": "indirect"},
-        "rule": "23 histories (the repository's Point history by hand, 22 pseudo-random legal histories of 1-5 steps over all four step kinds, "
+        "rule": "24 histories (the repository's Point history and the D17 history HDs by hand with pinned values, 22 pseudo-random legal histories of 1-5 steps over all four step kinds, "
                 "any interleaving, fields of 20 types incl. three Option spellings); every version is a real derived Rust type; all (writer, "
                 "reader) pairs x 8 values: outcome (value, error variant, field name) against the documented-outcome table and the operational "
                 "model, top level with following data and embedded between a u16 and a String sibling (embedded + stored version 0 + removal "
                 "excluded, DESIGN 9.1). distinct = distinct (history, w, r, value) accepted by the implementation",
         "trusted": MODEL_TRUST + ["the generator only emits legal histories (chunk-0 order fixed; removal of the last serialized field of a chunk)"],
-        "partial": "the general equation operational = table for all legal histories is not yet a theorem (the same-definition case is: rt_full); "
-                   "evolution on enum variants is exercised in the decl family (same-version) only",
-        "level_text": "Proof (partial): the documented outcome is a function (expectedRead) written without reference to bytes; its clauses — "
+        "partial": "pairs outside pairAlignedB (3% of the generated cases: a passed-over field of a type that may hold a deduplicated string) "
+                   "and evolution steps on types nested inside the record or on enum variants across versions: correspondence only; "
+                   "known finding D17 (a passed-over first occurrence of a deduplicated string shifts later string ids)",
+        "level_text": "Proof: the documented outcome is a function (expectedRead) written without reference to bytes; its clauses — "
                       "default for an added field, wrap / unwrap for made-optional, absent for a removed optional field, the two named errors, "
-                      "first failing field wins — are theorems; operational = table is proved by kernel evaluation on the repository's own "
-                      "history for the interesting version pairs (tests, labelled as such). On every run the real code is compared with both "
-                      "the table and the operational model on every version pair of every generated history.",
+                      "first failing field wins — are theorems; and the general equation is a theorem (evolution_outcome_frame): for every "
+                      "pair of record definitions passing the decidable, value-independent check pairAlignedB (legality for the chunked "
+                      "layout) and every value, at top level or between sibling data, reading what the writer's definition wrote with the "
+                      "reader's gives exactly expectedRead, leaves the string tables equal and (with a header) consumes exactly the record. "
+                      "The check is evaluated by decide on all 25 pairs of the repository's Point history and by the driver on every "
+                      "generated pair (evidence: cases-of-aligned-pairs). The exclusion of passed-over deduplicated strings is proved "
+                      "necessary (skipped_dedup_breaks_outcome = finding D17). On every run the real code is compared with both the table "
+                      "and the operational model on every version pair of every generated history.",
         "level_note": "Trusted: Lean kernel, model, harness; the table's fidelity to the documentation is by reading.",
     },
     "C04": {
